@@ -209,6 +209,28 @@ TableAs(t, a)     == [k |-> "table", t |-> t, as |-> a]
 Derived(q, a)     == [k |-> "derived", q |-> q, as |-> a]
 JoinF(jt, l, r, on) == [k |-> "join", jt |-> jt, l |-> l, r |-> r, on |-> on]   \* jt in inner|left|cross|comma
 NoFrom == [k |-> "none"]
+KeyVecLess(a, b, order) == \E j \in 1..Len(order) : KeyLess(a[j], b[j], order[j].dir) /\
+                              \A i \in 1..(j-1) : ~KeyLess(a[i], b[i], order[i].dir) /\ ~KeyLess(b[i], a[i], order[i].dir)
+\* The rows a NESTED block (the definition of a view, a CTE or a derived table) hands to the enclosing query: its own
+\* ORDER BY / LIMIT / OFFSET are applied first - the enclosing query filters, joins and aggregates the SLICE, never the
+\* rows the slice cut off.  r = EvalQ(q, ..) carries the order key of every row.  The slice is a definite bag unless rows
+\* that are NOT identical tie across a boundary of the window (LIMIT without a deciding ORDER BY): ok = FALSE then.
+BlockRows(q, r) ==
+  IF q.limit < 0 /\ q.offset < 0 THEN [ok |-> TRUE, rows |-> r.rows] ELSE
+  LET n == Len(r.rows)
+      off == IF q.offset < 0 THEN 0 ELSE q.offset
+      hi  == IF q.limit < 0 THEN n ELSE off + q.limit          \* the window holds the sorted positions off+1 .. hi
+      less(i, j) == KeyVecLess(r.keys[i], r.keys[j], q.order)
+      class(i) == { j \in 1..n : ~less(i, j) /\ ~less(j, i) }
+      before(i) == Cardinality({ j \in 1..n : less(j, i) })
+      incl(i) == LET b == before(i) t == Cardinality(class(i))
+                     lo2 == IF b > off THEN b ELSE off
+                     hi2 == IF b + t < hi THEN b + t ELSE hi
+                 IN IF hi2 > lo2 THEN hi2 - lo2 ELSE 0            \* how many rows of i's tie class fall inside the window
+      rank(i) == Cardinality({ j \in class(i) : j < i })
+      amb == \E i \in 1..n : incl(i) > 0 /\ incl(i) < Cardinality(class(i)) /\ \E j \in class(i) : ~RowEq(r.rows[i], r.rows[j])
+      keep == { i \in 1..n : rank(i) < incl(i) }
+  IN [ok |-> ~amb, rows |-> [k \in 1..Cardinality(keep) |-> r.rows[SetToSeq(keep)[k]]]]
 ViewNames(v, r) == IF v.cols = <<>> THEN r.names ELSE v.cols
 EvalFrom(f, db, outer) ==
   CASE f.k = "table" ->
@@ -216,13 +238,16 @@ EvalFrom(f, db, outer) ==
             LET v == db.views[f.t]
                 r == EvalQ(v.q, [db EXCEPT !.views = [n \in (DOMAIN db.views) \ {f.t} |-> db.views[n]]], <<>>) IN
             IF r.err \/ (v.cols # <<>> /\ Len(v.cols) # Len(r.names)) THEN FromErr
-            ELSE FromRes([i \in 1..Len(r.names) |-> [q |-> f.as, c |-> ViewNames(v, r)[i]]], r.rows)
+            ELSE LET b == BlockRows(v.q, r) IN
+                 IF ~b.ok THEN FromErr ELSE FromRes([i \in 1..Len(r.names) |-> [q |-> f.as, c |-> ViewNames(v, r)[i]]], b.rows)
          ELSE IF f.t \in DOMAIN db.tables THEN
             FromRes([i \in 1..Len(db.tables[f.t].cols) |-> [q |-> f.as, c |-> db.tables[f.t].cols[i]]], db.tables[f.t].rows)
          ELSE FromErr
     [] f.k = "derived" ->
          LET r == EvalQ(f.q, db, outer) IN
-         IF r.err THEN FromErr ELSE FromRes([i \in 1..Len(r.names) |-> [q |-> f.as, c |-> r.names[i]]], r.rows)
+         IF r.err THEN FromErr ELSE
+         LET b == BlockRows(f.q, r) IN
+         IF ~b.ok THEN FromErr ELSE FromRes([i \in 1..Len(r.names) |-> [q |-> f.as, c |-> r.names[i]]], b.rows)
     [] f.k = "join" ->
          LET L == EvalFrom(f.l, db, outer) R == EvalFrom(f.r, db, outer) IN
          IF L.err \/ R.err THEN FromErr ELSE
@@ -331,8 +356,6 @@ ObsCount(rs, or) == Cardinality({ i \in 1..Len(rs) : ObsRowEq(rs[i], or) })     
 ObsCountO(os, sr) == Cardinality({ i \in 1..Len(os) : ObsRowEq(sr, os[i]) })       \* os observed rows, sr spec row
 ObsBagEq(srows, orows) == Len(srows) = Len(orows)
                           /\ \A i \in 1..Len(srows) : ObsCountO(orows, srows[i]) = CountRow(srows, srows[i])
-KeyVecLess(a, b, order) == \E j \in 1..Len(order) : KeyLess(a[j], b[j], order[j].dir) /\
-                              \A i \in 1..(j-1) : ~KeyLess(a[i], b[i], order[i].dir) /\ ~KeyLess(b[i], a[i], order[i].dir)
 \* obs can be read as a non-decreasing selection of distinct spec rows (greedy: smallest feasible key)
 RECURSIVE SortedAssign(_,_,_,_,_,_)
 SortedAssign(R, order, obs, i, rem, prev) ==
